@@ -14,7 +14,9 @@ from projlib import Mage, calls, stderr_class
 import c06gen as G
 
 STUB = "//go:build mage\n\npackage main\n\nfunc main() {}\n"
-CLASSES = ("import-name-clash", "predeclared-shadowed", "generic-namespace-type")
+# the only stream whose failures are a known finding; the import-name-clash, generic-namespace-type and
+# default:* streams exercise REPAIRED defects (869bb8a, f02d247, 3720af9): a regression there is a plain violation
+CLASSES = ("predeclared-shadowed",)
 HASHFAST = {"MAGEFILE_HASHFAST": "1"}
 
 
@@ -103,7 +105,7 @@ def observe(mage, case):
 def judge(ctx, case, ob):
     """the oracle: the property sentence over the abstract package and the observations"""
     pkg, stream = case["pkg"], case["stream"]
-    cls = stream if stream in CLASSES else ("default-decl-multi-name-spec" if stream.startswith("default:") else "none")
+    cls = stream if stream in CLASSES else "none"
     bad = []
 
     def v(clause, **kw):
@@ -216,19 +218,7 @@ def plan_runs(rng, pkg):
     return runs
 
 
-def load_side_findings(ctx):
-    """candidate findings of this check that are not (yet) in /verif/known_findings.json"""
-    p = os.path.join(os.path.dirname(os.path.abspath(__file__)), "c06_known.json")
-    if not os.path.exists(p):
-        return
-    have = set(k.get("id") for k in ctx.known_findings)
-    for k in json.load(open(p)).get("findings", []):
-        if k.get("id") not in have:
-            ctx.known_findings.append(k)
-
-
 def run(ctx):
-    load_side_findings(ctx)
     ctx.prove(["Props/C06.vo", "Run/eval_C06.vo"])
     ctx.trusted_base += [
         "checks/c06.py + lib/c06gen.py (declaration generator, renderer to Go files, printer to Coq terms, output parsers, oracle)",
@@ -250,7 +240,7 @@ def run(ctx):
         k = 1 if ctx.quick else 12
         for _ in range(nmain):
             cases.append({"stream": "main", "pkg": G.gen_package(rng)})
-        for shape in ["wrong-spec", "panic-multi", "ok-unexported-first", "ok-first"] * k:
+        for shape in ["wrong-spec", "panic-multi", "ok-unexported-first", "ok-first", "no-own-value", "typed-no-value"] * k:
             cases.append({"stream": "default:" + shape, "pkg": G.gen_default_shape(rng, shape)})
         for cls, n in (("import-name-clash", 4), ("predeclared-shadowed", 3), ("generic-namespace-type", 1)):
             for _ in range(n * k):
@@ -316,7 +306,7 @@ def run(ctx):
             seen.add(h)
             if nv >= 1 and nv < len(pkg["funcs"]) and ob["alone_ok"]:
                 nontriv += 1
-        if c["stream"] == "main" or c["stream"].startswith("default:"):
+        if c["stream"] not in CLASSES:
             items.append(coq_case(c, ob, dv))
             item_case.append((c, ob))
     if noncompiling > max(1, len(cases) // 10):
@@ -343,8 +333,9 @@ def run(ctx):
                    "named results, 19 unsupported parameter types, contexts in wrong places, generic functions, methods on namespace / "
                    "unexported namespace / non-namespace / look-alike (alt.Namespace) types with value and pointer receivers, doc comments "
                    "with quotes, back-quotes, backslashes, CRs, block comments, Default and Aliases declarations, harmless helper identifiers; "
-                   "separate streams: Default in multi-name var specs, identifiers named like the generated file's imports / predeclared "
-                   "identifiers, generic namespace type (oracle only); distinct by hash; non-trivial = compiles, has at least one target and one non-target")
+                   "dedicated streams for the repaired defects (Default in multi-name var specs / without a value of its own, identifiers named "
+                   "like the generated file's imports, generic namespace type: oracle + model) and for the known one (identifiers shadowing "
+                   "predeclared names the generated file uses: oracle only); distinct by hash; non-trivial = compiles, has at least one target and one non-target")
     cov.update(stats)
     cov["generated_packages_not_compiling"] = noncompiling
     cov["model_evaluated_on"] = len(items)
